@@ -464,3 +464,34 @@ def field_reads(body, field, roots=None):
             if p and ("." + field) in p[1:] and len(s["d"]) == 1 and (roots is None or p[0] in roots):
                 out.append((s["d"][0], p[0], p))
     return out
+
+
+def backward_calls(body, local):
+    """Backward slice from `local` through every assignment and every call (args → dest); returns
+    (locals, list of call terminators crossed)."""
+    prep(body)
+    defs = {}
+    for b in body.blocks:
+        if b["cleanup"]:
+            continue
+        for s in b["stmts"]:
+            defs.setdefault(s["d"][0], []).append(("s", s["rv"]))
+        t = b["term"]
+        if t["k"] == "call" and len(t["d"]) >= 1:
+            defs.setdefault(t["d"][0], []).append(("c", t))
+    seen = {local}
+    todo = [local]
+    calls = []
+    while todo:
+        x = todo.pop()
+        for k, d in defs.get(x, ()):
+            if k == "s":
+                srcs = [op_local(o) for o in rv_operands(d)]
+            else:
+                calls.append(d)
+                srcs = [op_local(a) for a in d["args"]]
+            for s in srcs:
+                if s is not None and s not in seen:
+                    seen.add(s)
+                    todo.append(s)
+    return seen, calls
